@@ -89,6 +89,15 @@ module N =
   let size_nat = function
   | N0 -> O
   | Npos p -> Pos.size_nat p
+  (** val log2 : coq_N -> coq_N **)
+
+  let log2 = function
+  | N0 -> N0
+  | Npos p0 ->
+    (match p0 with
+     | Coq_xI p -> Npos (Pos.size p)
+     | Coq_xO p -> Npos (Pos.size p)
+     | Coq_xH -> N0)
 
   (** val pos_div_eucl : positive -> coq_N -> coq_N * coq_N **)
 
